@@ -22,9 +22,12 @@ type vxCanvas struct {
 	fill, stroke parser.RGBA
 	pathOpen     bool
 	protocol     *[]string // protocol errors (paint or clip without a path)
+	calls        *int      // number of drawing calls (paints, images, gradients, patterns), shared with the groups
 }
 
-func vxNewCanvas() *vxCanvas { return &vxCanvas{log: new([]string), protocol: new([]string)} }
+func vxNewCanvas() *vxCanvas {
+	return &vxCanvas{log: new([]string), protocol: new([]string), calls: new(int)}
+}
 
 func (c *vxCanvas) emit(s string) {
 	if n := len(*c.log); n > 0 && (*c.log)[n-1] == s && s != "G[" && s != "]" {
@@ -42,7 +45,8 @@ func (c *vxCanvas) OnNewStack(f func()) {
 }
 func (c *vxCanvas) State() backend.GraphicState { return c }
 func (c *vxCanvas) NewGroup(x, y, width, height backend.Fl) backend.Canvas {
-	return &vxCanvas{log: new([]string), protocol: c.protocol}
+	*c.calls++
+	return &vxCanvas{log: new([]string), protocol: c.protocol, calls: c.calls}
 }
 
 func (c *vxCanvas) DrawWithOpacity(opacity backend.Fl, group backend.Canvas) {
@@ -63,6 +67,7 @@ func vxColorName(col parser.RGBA) string {
 }
 
 func (c *vxCanvas) Paint(op backend.PaintOp) {
+	*c.calls++
 	if !c.pathOpen {
 		*c.protocol = append(*c.protocol, "paint-without-path")
 	}
